@@ -103,7 +103,11 @@ def o_final_try_sync(w):
     for op in w.ops.values():
         if op.get('probe') and op['kind'] == 'try_sync':
             res = w.ghost.get('res%d' % op['opid'])
-            if isinstance(res, En): out.append(('probe-try_sync-busy:op%d' % op['opid'], And(Ne(w.ghost.get('ret%d' % op['opid'], NONE_T), NONE_T), Ne(res.disc, ZERO))))
+            # the probe runs in the final phase, in which pool threads no longer move: "pool idle at the end" is therefore "pool idle when the
+            # probe was made" (a Busy try_sync does not wake anybody).  Without that conjunct a pool thread that has finished the last job but
+            # not yet released the queue (still inside JobQueue::drain when its step budget ran out) made the probe Busy: a false alarm of the
+            # oracle found with c09_p1_stale_wake_try on the unchanged tree, corrected here
+            if isinstance(res, En): out.append(('probe-try_sync-busy:op%d' % op['opid'], And(w.quiescent, Ne(w.ghost.get('ret%d' % op['opid'], NONE_T), NONE_T), Ne(res.disc, ZERO))))
     return out
 
 def o_fut_results(w):
